@@ -350,3 +350,56 @@ for _c in pc.CARRIERS:
                               'tokenize-based accounting of COMMENT/NAME/NUMBER/STRING tokens and byte-identity of lines outside the container',
                               tier='quick' if _c.id in _QC and ((_op, _k, _tf) in (('put_slice', 0, False), ('put_slice', 2, True), ('put_slice', 0, True)) or (_c.id in ('list4c', 'decos') and (_op, _k, _tf) == ('put_slice', 2, False))) else 'thorough',
                               budget=600, per_path=60, out='alignment aesthetics of multi-line slices (unspecified)', reset=pc.reset_globals))
+
+
+def p2_comment_then_delete(q: int, k: int, up: int):
+    """[queries] -> put_line_comment(longer) on statement k -> delete an enclosing block: no token may appear from nowhere, what remains is the
+    original minus the deleted block"""
+    from harness.c02 import QKINDS, prequery, ACC_SRC
+    assume(0 <= q < len(QKINDS) and 0 <= up <= 2)
+    qk = QKINDS[pc.pin(q, 0, len(QKINDS) - 1)]
+    with pc.untraced():
+        root = FST(ACC_SRC, 'exec')
+        pc.reset_globals()
+        stmts = [n.f for n in ast.walk(root.a) if isinstance(n, ast.stmt)]
+    prequery(root, qk)
+    assume(0 <= k < len(stmts))
+    tgt = stmts[pc.pin(k, 0, len(stmts) - 1)]
+    try:
+        tgt.put_line_comment('a much longer comment than before')
+    except pc.EXPECTED_RAISES:
+        cover('refused')
+        return
+    a_ = tgt
+    for _ in range(pc.pin(up, 0, 2)):
+        if a_.parent is not None and a_.parent.parent is not None and isinstance(a_.parent.a, ast.stmt):
+            a_ = a_.parent
+    with pc.untraced():
+        src1 = pc.R(root.src)
+        before = [(k_, v) for k_, v, _ in _toks(src1)]
+    if a_.pfield is None or a_.pfield.idx is None:
+        return
+    try:
+        with FST.options(**pc.OPTS):
+            a_.remove()
+    except pc.EXPECTED_RAISES:
+        cover('remove.refused')
+        return
+    with pc.untraced():
+        src2 = pc.R(root.src)
+        pc.o_parse(root, 'comment_then_delete')
+        after = [(k_, v) for k_, v, _ in _toks(src2)]
+        b2 = list(before)
+        extra = []
+        for t in after:
+            if t in b2:
+                b2.remove(t)
+            else:
+                extra.append(t)
+        check(not extra, 'comment_then_delete.tokens_appeared_from_nowhere', (src2, extra))
+    cover('ok')
+
+
+CELLS.append(Cell('P2.comment_then_delete', p2_comment_then_delete, 'P', ['fst.fst_trivia._getput_line_comment', 'fst.fst.FST.remove', 'fst.fst.FST.bloc'],
+                  'carrier with nested blocks, docstring, try/except and match; pre-query kind, target statement and which enclosing block is deleted: symbolic (finite); tokenize accounting after the delete',
+                  budget=900, per_path=90, reset=pc.reset_globals))
